@@ -408,13 +408,17 @@ class EIO(Engine):
         if base + len(want) == nb and nb:
             self.probe('read:window_at_end')
         h = None
+        src_buf = None
         try:
             if route == 'bytes':
                 st, x = call(C, bytes=data, **kw)
             elif route == 'bytearray':
-                st, x = call(C, bytes=bytearray(data), **kw) if kw else call(C, bytearray(data))
+                src_buf = bytearray(data)
+                st, x = call(C, bytes=src_buf, **kw) if kw else call(C, src_buf)
             elif route == 'memoryview':
-                st, x = call(C, bytes=memoryview(data), **kw) if kw else call(C, memoryview(data))
+                src_buf = bytearray(data) if (base + len(want)) % 2 else None      # (a view of a writable or of a read-only buffer)
+                mv = memoryview(src_buf if src_buf is not None else data)
+                st, x = call(C, bytes=mv, **kw) if kw else call(C, mv)
             elif route == 'bytesio':
                 st, x = call(C, io.BytesIO(data), **kw)
             elif route in ('mv_cast_H', 'mv_cast_I', 'array_H'):
@@ -459,6 +463,15 @@ class EIO(Engine):
             trig = 'empty-file' if (nb == 0 and route in ('filename', 'handle')) else 'valid-window'
             incs.append(self.inc(f'{tag}|{trig}|raised', cls=cls, size=len(data), offset=o, length=ln, exc=kernel.canon(x)))
             return {'st': 'exc'}, incs
+        if src_buf is not None and len(src_buf):
+            # the caller re-uses its buffer (the next block of a file read into it): what was read from it stays what it was
+            for j in range(len(src_buf)):
+                src_buf[j] ^= 0xFF
+            self.fault('source_buffer_rewritten')
+            after = call(lambda: (x.bin, x.tobytes()))
+            if after != ('ok', (want, bits_to_bytes(want))):
+                incs.append(self.inc(f'{tag}|source-rewritten-afterwards|content-changed', cls=cls, size=len(data), offset=o, length=ln))
+                return {'st': 'ok', 'n': len(want)}, incs
         got = call(lambda: x.bin)
         if got != ('ok', want) or len(x) != len(want):
             mut = 'mutable' if cls in ('BitArray', 'BitStream') else 'const'
